@@ -139,7 +139,10 @@ def _run_chunk_here(cid, seed, config, start, stop, digest_upto):
     check = _CHECK or load_check(cid)
     _limit_address_space()
     # if a run wedges in C code (no signal delivery) dump stacks and die:
-    faulthandler.dump_traceback_later(RUN_TIMEOUT_S * 3 + 30, exit=True)
+    # re-armed for every run, well beyond the allowance of a run (which
+    # ends, by SIGALRM, in a note or in a progress violation)
+    wedged = int(getattr(check, "RUN_TIMEOUT_S", RUN_TIMEOUT_S)) * 3 + 60
+    faulthandler.dump_traceback_later(wedged, exit=True)
     out = {"config": config, "start": start, "stop": stop, "n": 0,
            "fired": Counter(), "probes": Counter(), "notes": Counter(),
            "shapes": set(), "steps": 0, "digests": {}, "violations": [],
@@ -148,6 +151,7 @@ def _run_chunk_here(cid, seed, config, start, stop, digest_upto):
     try:
         for i in range(start, stop):
             case = make_case(check, seed, config, i)
+            faulthandler.dump_traceback_later(wedged, exit=True)
             ctx, viol = run_case(check, case)
             out["n"] += 1
             out["fired"].update(ctx.fired)
@@ -413,11 +417,13 @@ def batch(cid, tier):
                 submit(next_thorough())
         try:
             while pending:
-                done, _ = cf.wait(pending, timeout=RUN_TIMEOUT_S * 4 + 60,
+                patience_s = int(getattr(check, "RUN_TIMEOUT_S",
+                                         RUN_TIMEOUT_S)) * 4 + 60
+                done, _ = cf.wait(pending, timeout=patience_s,
                                   return_when=cf.FIRST_COMPLETED)
                 if not done:
                     raise HarnessError("no chunk finished in %d s" %
-                                       (RUN_TIMEOUT_S * 4 + 60))
+                                       patience_s)
                 for fut in done:
                     pending.discard(fut)
                     r = fut.result()     # BrokenProcessPool -> harness error
